@@ -11,6 +11,7 @@ import os
 import random
 import shutil
 import tempfile
+import zlib
 import time
 from fractions import Fraction
 
@@ -32,14 +33,17 @@ def fmt(v, as_int=False):
     return repr(float(v))
 
 
-def write_csv(path, rows, order, with_adj=True, int_opens=False, cols=None, date_style='iso', int_closes=False):
+def write_csv(path, rows, order, with_adj=True, int_opens=False, cols=None, date_style='iso', int_closes=False, header_style=None):
     """rows: list of dict(date, open, close, adj). order: permutation of row indexes. cols: order of the columns after
     Date (vendors differ); date_style 'mdy' writes 2/1/2019 instead of 2019-02-01."""
     names = ['Open', 'High', 'Low', 'Close'] + (['Adj Close'] if with_adj else []) + ['Volume']
     if cols:
         names = [c for c in cols if c in names] + [c for c in names if c not in cols]
-    with open(path, 'w') as f:
-        f.write(','.join(['Date'] + names))
+    # vendors' exports differ in the first line too: a UTF-8 byte order mark (spreadsheet exports), quoted column names
+    style = header_style if header_style is not None else ('plain', 'plain', 'plain', 'bom', 'quoted')[
+        zlib.crc32(('%s|%d' % (os.path.basename(path), len(rows))).encode()) % 5]
+    with open(path, 'w', encoding='utf-8-sig' if style == 'bom' else 'utf-8') as f:
+        f.write(','.join(('"%s"' % c if style == 'quoted' else c) for c in ['Date'] + names))
         f.write('\n')
         for i in order:
             r = rows[i]
@@ -171,7 +175,8 @@ class Dataset(object):
 
     def __init__(self, rng, spec=None, reuse_dir=None):
         self.rng = rng
-        self.dir = reuse_dir or tempfile.mkdtemp(prefix='qsmon-data-')
+        # directory names are free text too: brackets, a question mark, a blank
+        self.dir = reuse_dir or tempfile.mkdtemp(prefix=rng.choice(['qsmon-data-', 'qsmon-data-', 'qsmon-data-', 'qsmon [data]-', 'qsmon-d?ta-']))
         self.own_dir = reuse_dir is None
         if reuse_dir is not None:
             for f in os.listdir(reuse_dir):
